@@ -137,4 +137,74 @@ example :
         (fun s => (s.bits.reverse, s.idx)) = some (toBits 12 1234, 1) := by
   decide
 
+/-! ### 4. range refusal -/
+
+/-- A value whose quantised integer minus the reference is negative or needs more than the field's
+    `n` bits is refused (`.error .other`: `bitstring` raises) — never wrapped modulo `2^n`, never
+    clipped.  Holds for any width the operators may have produced (a non-positive one refuses everything). -/
+theorem C03_refuses_out_of_range (dd : DDesc) (nbits scale ref : Int) (s : St) (v : Val) (q : Int)
+    (hv : s.curVal = some v) (hm : v ≠ .missing) (hq : quantise v scale = .ok q)
+    (h : q - ref < 0 ∨ (2 : Int) ^ nbits.toNat ≤ q - ref) :
+    encNumericU dd nbits scale ref s = .error .other := by
+  cases hn : natWidth nbits with
+  | error e =>
+    unfold natWidth at hn
+    split at hn
+    · next hle => exact encNumericU_badwidth dd nbits scale ref s v hv hle
+    · cases hn
+  | ok n =>
+    obtain ⟨_, rfl⟩ := natWidth_ok hn
+    rw [encNumericU_eq dd _ scale ref s v n hv hn, numericField_value v scale ref q n hm hq]
+    have : fieldUInt (q - ref) n = .error .other := by
+      unfold fieldUInt
+      exact C19_refuses_unfit [] (q - ref) n (by simpa using h)
+    rw [this]; rfl
+
+/-- ... and everything inside the range is accepted and written as it is. -/
+theorem C03_accepts_in_range (dd : DDesc) (scale ref : Int) (n : Nat) (s : St) (v : Val) (q : Int)
+    (hv : s.curVal = some v) (hm : v ≠ .missing) (hq : quantise v scale = .ok q) (h0 : 0 < n)
+    (hlo : 0 ≤ q - ref) (hhi : q - ref < (2 : Int) ^ n) :
+    encNumericU dd (n : Int) scale ref s = .ok (s.afterWrite dd (toBits n (q - ref).toNat)) := by
+  rw [encNumericU_eq dd _ scale ref s v n hv (natWidth_ofNat n h0), numericField_value v scale ref q n hm hq]
+  have h1 : ((q - ref).toNat : Int) = q - ref := by omega
+  have h2 : (q - ref).toNat < 2 ^ n := by
+    have : (((q - ref).toNat : Nat) : Int) < ((2 ^ n : Nat) : Int) := by rw [h1]; simpa using hhi
+    exact_mod_cast this
+  rw [← h1, fieldUInt_nat n _ h0 h2, h1]; rfl
+
+/-- the same for code / flag (and associated, skipped) fields -/
+theorem C03_codeflag_refuses_out_of_range (dd : DDesc) (n : Nat) (s : St) (i : Int)
+    (hv : s.curVal = some (.int i)) (h : i < 0 ∨ (2 : Int) ^ n ≤ i) :
+    encCodeflagU dd n s = .error .other := by
+  rw [encCodeflagU_eq dd n s _ hv]
+  have : codeflagField (.int i) n = .error .other := by
+    unfold codeflagField fieldUInt
+    exact C19_refuses_unfit [] i n h
+  rw [this]; rfl
+
+/-- The one documented exception: a value that quantises to the field's all-ones pattern IS written
+    (it is in range) and reads back as missing. -/
+theorem C03_all_ones_is_missing (dd : DDesc) (scale ref : Int) (n : Nat) (s : St) (v : Val) (q : Int)
+    (hv : s.curVal = some v) (hm : v ≠ .missing) (hq : quantise v scale = .ok q)
+    (h1 : 1 < n) (h64 : n ≤ 64) (hq1 : q - ref = ((2 ^ n - 1 : Nat) : Int)) :
+    encNumericU dd (n : Int) scale ref s = .ok (s.afterWrite dd (ones n)) ∧
+    ∀ (sd : St) (suf : Bits), sd.bits = ones n ++ suf →
+      decNumericU dd (n : Int) scale ref sd = .ok (sd.afterRead dd suf .missing) := by
+  have hp : 2 ^ n - 1 < 2 ^ n := by have := Nat.two_pow_pos n; omega
+  constructor
+  · rw [encNumericU_eq dd _ scale ref s v n hv (natWidth_ofNat n (by omega)),
+      numericField_value v scale ref q n hm hq, hq1, fieldUInt_nat n _ (by omega) hp, toBits_max]
+    rfl
+  · intro sd suf hb
+    have := (C03_element_fixpoint dd scale ref n (2 ^ n - 1) (by omega) h64 hp).1 sd suf
+      (by rw [toBits_max]; exact hb)
+    simpa [canonUInt, h1, numVal] using this
+
+/-- non-vacuity: 8 bits, scale 0, reference 0: 255 is accepted, written as all ones; 256 and −1 are refused -/
+example :
+    (encNumericU (.oper 0) 8 0 0 { vals := [[.int 255]] }).toOption.map (·.bits) = some (ones 8) ∧
+    (encNumericU (.oper 0) 8 0 0 { vals := [[.int 256]] }).toOption.map (·.bits) = none ∧
+    (encNumericU (.oper 0) 8 0 0 { vals := [[.int (-1)]] }).toOption.map (·.bits) = none := by
+  decide
+
 end Bufr
